@@ -246,7 +246,7 @@ fn calculate_selection<'a>(
                                         field_type_qualifiers: &[GraphqlTypeQualifier::Required],
                                         flatten: true,
                                         graphql_name: None,
-                                        rust_name: fragment.name.to_snake_case().into(),
+                                        rust_name: keyword_replace(fragment.name.to_snake_case()),
                                         struct_id,
                                         deprecation: None,
                                         boxed: fragment_is_recursive(
@@ -271,7 +271,7 @@ fn calculate_selection<'a>(
                                     field_type_qualifiers: &[GraphqlTypeQualifier::Required],
                                     flatten: true,
                                     graphql_name: None,
-                                    rust_name: fragment.name.to_snake_case().into(),
+                                    rust_name: keyword_replace(fragment.name.to_snake_case()),
                                     struct_id,
                                     deprecation: None,
                                     boxed: fragment_is_recursive(*fragment_id, context.query.query),
